@@ -356,6 +356,21 @@ fn wire_case(c: &Case, alpn: Alpn) -> Result<String, (String, String)> {
 fn replay(path: &str) -> i32 {
     let doc: serde_json::Value = serde_json::from_str(&std::fs::read_to_string(path).expect("replay file")).expect("json");
     let rp = doc.get("replay").cloned().unwrap_or(doc);
+    if rp.get("engine").and_then(|x| x.as_str()) == Some("c13-builder") {
+        std::panic::set_hook(Box::new(|_| {}));
+        let (_, viols) = crate::schedmc::c13e2e::builder_stack_runs();
+        let _ = std::panic::take_hook();
+        for (sig, what, _) in &viols {
+            println!("  {sig}: {what}");
+        }
+        return if viols.is_empty() {
+            println!("replay holds");
+            0
+        } else {
+            println!("VIOLATION property=C13 replay={path}");
+            1
+        };
+    }
     let cases = grammar();
     let Some(c) = rp.get("case_index").and_then(|x| x.as_u64()).and_then(|i| cases.get(i as usize)) else {
         println!("MACHINERY-ERROR replay file has no case_index");
@@ -439,6 +454,12 @@ pub fn run(args: &Args) -> i32 {
     }
     let _ = std::panic::take_hook();
     run.cov("part2_wire_cases", wire_n);
+    // part 3: the stack as Client::builder() assembles it, request sequences, redirect hops, pooled connections
+    let (bn, bviols) = crate::schedmc::c13e2e::builder_stack_runs();
+    run.cov("part3_builder_stack_sequences", bn);
+    for (sg, what, rp) in bviols {
+        run.violation(sg, what, rp);
+    }
     run.cov("evaluations", evaluations + wire_n);
     run.cov("distinct_nontrivial", classes.len() as u64);
     run.cov("rule", "part 1: full cross product scheme{http,https,ws,wss} x host{name,IPv4,[IPv6],upper-case} x port{absent,80,443,8080} x path{empty,/,/a/b,/a%20b,//x} x query{absent,empty,q=1&r=2} x method{GET,POST,HEAD,OPTIONS,CONNECT,PURGE} x request version{1.0,1.1,2} x preset headers{none, caller's Host, connection-specific headers} x connection version{1.1,2} through the real layer stack, compared with a reference written from the statement; part 2: a covering slice of the same grammar x ALPN{no TLS, none, h2, http/1.1} through the real HttpConnectionBuilder and RequestExecutor onto an in-memory wire whose first bytes (h2 preface or request line + Host) are inspected; distinct = outcome classes");
